@@ -442,4 +442,381 @@ class SJobId(Sym):
         raise Unsupported(f"job.{n}")
 
 
-CONTRACTS = [CheckDirStructure(), ExportJobs(), CheckPathFunctionUnique(), MakePathFunction()]
+# ============================================================================= import side: _crawl_directory_data_space, _copy_to_job_workspace, _with_consistency_check
+
+DirT = z3.DeclareSort("DirT")
+REAL = z3.Function("REAL", DirT, DirT)                     # os.path.realpath
+UNDER_WS = z3.Function("UNDER_WS", DirT, z3.BoolSort())    # realpath starts with the realpath of the project's workspace
+WALK = z3.Function("WALK", z3.IntSort(), DirT)             # directory visited by the i-th step of os.walk
+ISJOB = z3.Function("ISJOB", DirT, z3.BoolSort())          # the schema function identifies this directory as a job
+JOBDIR = z3.Function("JOBDIR", DirT, DirT)                 # project.open_job(schema_function(path)).path
+
+
+class SDirTok(Sym):
+    def __init__(self, e):
+        self.e = e
+
+    def sym_eq(self, ex, other):
+        if isinstance(other, SDirTok):
+            return SBool(self.e == other.e)
+        raise Unsupported("path == non-path")
+
+    def sym_getattr(self, ex, name):
+        if name == "startswith":
+            def sw(prefix):
+                if isinstance(prefix, SDirTok) and prefix.e.eq(REAL(WS)):
+                    return SBool(UNDER_WS(self.e))
+                raise Unsupported("startswith with this prefix")
+            return NativeStub(sw, "str.startswith")
+        raise Unsupported(f"str.{name} on a directory path")
+
+    def sym_isinstance(self, ex, cls):
+        return cls in (str, object)
+
+
+WS = z3.Const("workspace", DirT)
+
+
+class SDirsList(Sym):
+    """the sub-directory list os.walk hands out: pruning it IN PLACE is what keeps os.walk from descending"""
+
+    def __init__(self):
+        self.pruned = False
+
+    def sym_delitem(self, ex, k):
+        if isinstance(k, slice) and k.start is None and k.stop is None and k.step is None:
+            self.pruned = True
+            return
+        raise Unsupported("del dirs[...] shape")
+
+    def sym_getattr(self, ex, name):
+        if name == "clear":
+            def clear():
+                self.pruned = True
+            return NativeStub(clear, "list.clear")
+        raise Unsupported(f"dirs.{name}")
+
+    def sym_setitem(self, ex, k, v):
+        if isinstance(k, slice) and k.start is None and k.stop is None and k.step is None and v == []:
+            self.pruned = True
+            return
+        raise Unsupported("dirs[...] = shape")
+
+
+class SWalk(Sym):
+    def __init__(self, ex):
+        self.n = z3.Int("n_walk")
+        ex.assume(self.n >= 0)
+
+    def sym_iter(self, ex):
+        def at(interp, i):
+            g = interp.ctx.ghost
+            g["cur_dirs"] = SDirsList()
+            g["cur_path"] = WALK(i)
+            g["yielded"] = []
+            return (SDirTok(WALK(i)), g["cur_dirs"], "files")
+        return CutSeq(self.n, at, label="walk")
+
+
+class SProjTok(Sym):
+    def sym_getattr(self, ex, name):
+        if name == "workspace":
+            return SDirTok(WS)
+        if name == "open_job":
+            def open_job(sp):
+                if not (isinstance(sp, tuple) and sp and sp[0] == "statepoint-of"):
+                    raise Unsupported("open_job argument")
+                return SJobAt(JOBDIR(sp[1]))
+            return NativeStub(open_job, "project.open_job")
+        raise Unsupported(f"project.{name}")
+
+
+class SJobAt(Sym):
+    def __init__(self, d):
+        self.d = d
+
+    def sym_getattr(self, ex, name):
+        if name == "path":
+            return SDirTok(self.d)
+        raise Unsupported(f"job.{name}")
+
+
+class CrawlCtx(Ctx):
+    def __init__(self, contract, case):
+        super().__init__(contract, case)
+        self.externals[os.walk] = lambda interp, root, *a, **k: SWalk(interp.ex) if not a and not k else (_ for _ in ()).throw(Unsupported("os.walk options"))
+        self.externals[os.path.realpath] = lambda interp, p: SDirTok(REAL(p.e)) if isinstance(p, SDirTok) else (_ for _ in ()).throw(Unsupported("realpath shape"))
+
+
+class CrawlDataSpace(Contract):
+    target = f"{IE}._crawl_directory_data_space"
+    properties = ("C16",)
+    ctx_class = CrawlCtx
+    assumptions = ("os.walk: a directory's sub-directories are visited iff they are still in the list handed out with it when the next step is taken (top-down walk)",)
+
+    def loops(self, case):
+        def body(interp, fr, writes):
+            ex, g = interp.ex, interp.ctx.ghost
+            d, dirs, ys = g["cur_path"], g["cur_dirs"], g["yielded"]
+            ex.oblige(self.oname("body:an_identified_job_directory_is_not_descended_into_(sub-directory_list_pruned_in_place)"),
+                      z3.Implies(ISJOB(d), z3.BoolVal(dirs.pruned)))
+            ex.oblige(self.oname("body:other_directories_are_descended_into"), z3.Implies(z3.Not(ISJOB(d)), z3.BoolVal(not dirs.pruned)))
+            want = z3.And(ISJOB(d), REAL(d) != REAL(JOBDIR(d)), z3.Not(UNDER_WS(REAL(d))))
+            ok_shape = len(ys) <= 1 and all(isinstance(y, tuple) and len(y) == 2 and isinstance(y[0], SDirTok) and isinstance(y[1], SJobAt) for y in ys)
+            ex.oblige(self.oname("body:a_directory_is_reported_for_import_iff_it_is_a_job_that_is_not_already_part_of_the_workspace"),
+                      z3.And(z3.BoolVal(ok_shape), z3.BoolVal(len(ys) == 1) == want))
+            if ok_shape and ys:
+                ex.oblige(self.oname("body:reported_with_the_job_its_state_point_opens"), z3.And(ys[0][0].e == d, ys[0][1].d == JOBDIR(d)))
+        return {"walk": LoopSpec("walk", lambda interp, fr, i, seq: z3.BoolVal(True), scratch=("path", "dirs", "_", "sp", "job", "dst"), heap_frame=body)}
+
+    def setup(self, interp, case):
+        g = interp.ctx.ghost
+
+        def schema(interp_, path):
+            if not isinstance(path, SDirTok):
+                raise Unsupported("schema function argument")
+            if interp.ex.decide(ISJOB(path.e), "schema:identifies-a-job"):
+                return ("statepoint-of", path.e)
+            return None
+        g["yielded"] = []
+        return [SDirTok(z3.Const("root", DirT)), SProjTok(), NativeStub(lambda path: schema(None, path), "schema function")], {}, {}
+
+    def yield_hook(self, interp, case, pre):
+        return lambda v: interp.ctx.ghost["yielded"].append(v)
+
+    def post(self, interp, case, pre, outcome):
+        if outcome[0] != "return":
+            interp.ex.oblige(self.oname("raises:nothing_of_its_own"), False, note=repr(outcome[1]))
+
+
+class CopyToJobWorkspace(Contract):
+    target = f"{IE}._copy_to_job_workspace"
+    properties = ("C16",)
+
+    def cases(self):
+        import errno
+        return [{"err": None}] + [{"err": e} for e in ("EEXIST", "ENOTEMPTY", "EACCES", "ENOSPC", "EIO")]
+
+    def setup(self, interp, case):
+        import errno
+        g = interp.ctx.ghost
+        g["events"] = []
+        dst = STok("job.path")
+
+        class SJob(Sym):
+            def sym_getattr(self, ex, name):
+                if name == "path":
+                    return dst
+                if name == "init":
+                    return NativeStub(lambda *a, **k: g["events"].append(("init", a, k)), "job.init")
+                raise Unsupported(f"job.{name}")
+
+        def copytree(src, d):
+            g["events"].append(("copytree", src, d))
+            if case["err"]:
+                raise RaiseSignal(OSError(getattr(errno, case["err"]), "injected"))
+        job = SJob()
+        src = STok("src")
+        return [src, job, NativeStub(copytree, "copytree")], {}, {"src": src, "job": job, "dst": dst}
+
+    def post(self, interp, case, pre, outcome):
+        from signac.errors import DestinationExistsError
+        ex, ev = interp.ex, interp.ctx.ghost["events"]
+        first = bool(ev) and ev[0] == ("copytree", pre["src"], pre["dst"]) and ev[0][1] is pre["src"] and ev[0][2] is pre["dst"]
+        ex.oblige(self.oname("ensures:the_source_is_copied_to_the_job_directory_first"), z3.BoolVal(first), note=repr(ev))
+        if case["err"] is None:
+            ok = outcome[0] == "return" and outcome[1] is pre["dst"] and ev[1:] == [("init", (), {})]
+            ex.oblige(self.oname("ensures:after_a_successful_copy_the_job_is_initialised_(validated)_once_and_its_directory_returned"), z3.BoolVal(bool(ok)), note=repr((outcome, ev)))
+        else:
+            e = outcome[1] if outcome[0] == "raise" else None
+            ex.oblige(self.oname("raises:no_initialisation_after_a_failed_copy"), z3.BoolVal(len(ev) == 1 and e is not None))
+            if case["err"] in ("EEXIST", "ENOTEMPTY", "EACCES"):
+                ex.oblige(self.oname("raises:an_occupied_destination_is_reported_as_DestinationExistsError_naming_the_job"),
+                          z3.BoolVal(isinstance(e, DestinationExistsError) and e.args and e.args[0] is pre["job"]), note=repr(e))
+            else:
+                ex.oblige(self.oname("raises:other_errors_pass_through_unchanged"), z3.BoolVal(isinstance(e, OSError) and not isinstance(e, DestinationExistsError)), note=repr(e))
+
+
+class WithConsistencyCheck(Contract):
+    target = f"{IE}._with_consistency_check"
+    properties = ("C16",)
+
+    def cases(self):
+        return [{"same": True}] + [{"same": False, "sp": a, "file": b} for a in ("none", "A") for b in ("none", "A", "B")]
+
+    def setup(self, interp, case):
+        g = interp.ctx.ghost
+        g["calls"] = []
+        A, B = {"a": 1}, {"a": 2}
+        val = {"none": None, "A": A, "B": B}
+
+        def mk(name, key):
+            def f(path):
+                g["calls"].append((name, path))
+                return val[case.get(key, "A")]
+            return NativeStub(f, name)
+        rd = mk("read_statepoint_file", "file")
+        sf = rd if case["same"] else mk("schema_function", "sp")
+        return [sf, rd], {}, {"sf": sf, "rd": rd, "val": val}
+
+    def post(self, interp, case, pre, outcome):
+        from signac.errors import StatepointParsingError
+        ex, g = interp.ex, interp.ctx.ghost
+        if outcome[0] != "return":
+            ex.oblige(self.oname("raises:nothing_when_wrapping"), False, note=repr(outcome[1]))
+            return
+        check = outcome[1]
+        path = STok("path")
+        try:
+            r = ("return", interp.call(check, [path], {}))
+        except RaiseSignal as e:
+            r = ("raise", e.exc)
+        calls = g["calls"]
+        if case["same"]:
+            ex.oblige(self.oname("ensures:the_state_point_file_reader_alone_is_called_once"), z3.BoolVal(r == ("return", pre["val"]["A"]) and calls == [("read_statepoint_file", path)]), note=repr((r, calls)))
+            return
+        sp, fl = pre["val"][case["sp"]], pre["val"][case["file"]]
+        conflict = bool(sp) and bool(fl) and sp != fl
+        if conflict:
+            ex.oblige(self.oname("raises:StatepointParsingError_when_schema_and_state_point_file_disagree"), z3.BoolVal(r[0] == "raise" and isinstance(r[1], StatepointParsingError)), note=repr(r))
+        else:
+            ex.oblige(self.oname("ensures:otherwise_the_schema's_state_point_is_returned"), z3.BoolVal(r[0] == "return" and r[1] is sp), note=repr(r))
+
+
+# ============================================================================= _analyze_directory_for_import
+
+JobK = z3.DeclareSort("JobK")                         # a job up to equality (Job.__eq__ / __hash__: id and project)
+CR_SRC = z3.Function("CR_SRC", z3.IntSort(), DirT)    # i-th pair produced by _crawl_directory_data_space
+CR_JOB = z3.Function("CR_JOB", z3.IntSort(), JobK)
+
+
+class SJobK(Sym):
+    def __init__(self, e):
+        self.e = e
+
+    def sym_hashable(self):
+        return True
+
+
+class SCrawl(Sym):
+    def __init__(self, ex):
+        self.n = z3.Int("n_crawl")
+        ex.assume(self.n >= 0)
+
+    def sym_iter(self, ex):
+        def at(interp, i):
+            interp.ctx.ghost["cur_i"] = i
+            interp.ctx.ghost["yielded"] = []
+            return (SDirTok(CR_SRC(i)), SJobK(CR_JOB(i)))
+        return CutSeq(self.n, at, label="crawl")
+
+
+class AnalyzeCtx(Ctx):
+    def __init__(self, contract, case):
+        super().__init__(contract, case)
+        self.externals[set] = lambda interp, *a: SymSet.empty(JobK) if not a else (_ for _ in ()).throw(Unsupported("set(x)"))
+        self.externals[os.path.join] = lambda interp, *a: ("join",) + a
+        self.externals[os.path.normpath] = lambda interp, a: ("normpath", a)
+
+    def instantiate(self, interp, rc, args, kw):
+        if rc.name == "_CopyFromDirectoryExecutor":
+            return ("executor", args, kw)
+        return NotImplemented
+
+
+class AnalyzeDirectoryForImport(Contract):
+    target = f"{IE}._analyze_directory_for_import"
+    properties = ("C16",)
+    ctx_class = AnalyzeCtx
+
+    def cases(self):
+        return [{"schema": k} for k in ("None", "callable", "relative-str", "rooted-str", "other")]
+
+    def loops(self, case):
+        j = z3.Int("aj")
+        k = z3.Const("ak", JobK)
+
+        def seen(interp, fr):
+            v = interp.lookup(fr, "jobs")
+            if not isinstance(v, SymSet):
+                raise Unsupported("jobs is not a set")
+            return v
+
+        def inv(interp, fr, i, seq):
+            c = seen(interp, fr)
+            return z3.And(z3.ForAll([k], c.member(k) == z3.Exists([j], z3.And(0 <= j, j < i, CR_JOB(j) == k))),
+                          z3.ForAll([j, z3.Int("aj2")], z3.Implies(z3.And(0 <= j, j < z3.Int("aj2"), z3.Int("aj2") < i), CR_JOB(j) != CR_JOB(z3.Int("aj2")))))
+
+        def body(interp, fr, writes):
+            ex, g = interp.ex, interp.ctx.ghost
+            i, ys = g["cur_i"], g["yielded"]
+            ok = len(ys) == 1 and isinstance(ys[0], tuple) and len(ys[0]) == 2 and isinstance(ys[0][0], SDirTok) and isinstance(ys[0][1], tuple) and ys[0][1][0] == "executor"
+            ex.oblige(self.oname("body:every_crawled_source_is_reported_once_with_a_copy_executor"), z3.BoolVal(ok), note=repr(ys)[:200])
+            if ok:
+                a = ys[0][1][1]
+                ex.oblige(self.oname("body:the_executor_copies_this_source_into_this_job"),
+                          z3.And(z3.BoolVal(len(a) == 2 and isinstance(a[0], SDirTok) and isinstance(a[1], SJobK) and not ys[0][1][2]), ys[0][0].e == CR_SRC(i),
+                                 a[0].e == CR_SRC(i), a[1].e == CR_JOB(i)) if len(a) == 2 and isinstance(a[0], SDirTok) and isinstance(a[1], SJobK) else z3.BoolVal(False))
+        return {"crawl": LoopSpec("crawl", inv, havoc={"jobs": lambda interp, fr, tag: SymSet.fresh(interp.ex, tag, JobK)}, scratch=("src", "job", "copy_executor"), heap_frame=body)}
+
+    def make_ctx(self, case):
+        ctx = super().make_ctx(case)
+        g = ctx.ghost
+        g["yielded"] = []
+
+        def crawl(interp, b):
+            g["crawl_args"] = (b["root"], b["project"], b["schema_function"])
+            return SCrawl(interp.ex)
+        ctx.callee_contracts[f"{IE}._crawl_directory_data_space"] = crawl
+
+        def wcc(interp, b):
+            return ("consistency-checked", b["schema_function"], b["read_statepoint_file"])
+        ctx.callee_contracts[f"{IE}._with_consistency_check"] = wcc
+        ctx.callee_contracts[f"{IE}._make_path_based_schema_function"] = lambda interp, b: ("path-schema", b["schema_path"])
+        return ctx
+
+    def setup(self, interp, case):
+        g = interp.ctx.ghost
+        root = "/data/root"
+        g["user_schema"] = NativeStub(lambda p: None, "user schema function")
+        schema = {"None": None, "callable": g["user_schema"], "relative-str": "a/{a:int}", "rooted-str": "/data/root/a/{a:int}", "other": 3}[case["schema"]]
+        proj = STok("project")
+        return [root, proj, schema], {}, {"root": root, "proj": proj, "schema": schema}
+
+    def yield_hook(self, interp, case, pre):
+        return lambda v: interp.ctx.ghost["yielded"].append(v)
+
+    def post(self, interp, case, pre, outcome):
+        from signac.errors import StatepointParsingError
+        from pyvc.interp import Closure
+        ex, g = interp.ex, interp.ctx.ghost
+        if case["schema"] == "other":
+            ex.oblige(self.oname("raises:TypeError_for_any_other_schema_argument"), z3.BoolVal(outcome[0] == "raise" and isinstance(outcome[1], TypeError) and "crawl_args" not in g))
+            return
+        ca = g.get("crawl_args")
+        rd = lambda v: isinstance(v, Closure) and v.node.name == "read_statepoint_file"
+        if ca is None:
+            ex.oblige(self.oname("ensures:the_data_space_is_crawled"), False)
+            return
+        sf = ca[2]
+        if case["schema"] == "None":
+            ok = rd(sf)
+        elif case["schema"] == "callable":
+            ok = isinstance(sf, tuple) and sf[0] == "consistency-checked" and sf[1] is g["user_schema"] and rd(sf[2])
+        else:
+            want = "/data/root/a/{a:int}" if case["schema"] == "rooted-str" else ("normpath", ("join", "/data/root", "a/{a:int}"))
+            ok = isinstance(sf, tuple) and sf[0] == "consistency-checked" and sf[1] == ("path-schema", want) and rd(sf[2])
+        ex.oblige(self.oname("ensures:crawled_from_the_root_with_the_schema_function_chosen_by_the_schema_argument_(always_cross-checked_against_the_state_point_file)"),
+                  z3.BoolVal(bool(ok and ca[0] == pre["root"] and ca[1] is pre["proj"])), note=repr(ca)[:300])
+        a, b = z3.Ints("pa pb")
+        n = z3.Int("n_crawl")
+        dup = z3.Exists([a, b], z3.And(0 <= a, a < b, b < n, CR_JOB(a) == CR_JOB(b)))
+        if outcome[0] == "return":
+            ex.oblige(self.oname("ensures:completes_only_if_no_two_sources_map_to_the_same_job"), z3.Not(dup))
+        else:
+            e = outcome[1]
+            ex.oblige(self.oname("raises:StatepointParsingError_only_if_two_sources_map_to_the_same_job"), z3.And(z3.BoolVal(isinstance(e, StatepointParsingError)), dup), note=repr(e))
+
+
+CONTRACTS = [CheckDirStructure(), ExportJobs(), CheckPathFunctionUnique(), MakePathFunction(), CrawlDataSpace(), CopyToJobWorkspace(), WithConsistencyCheck(),
+             AnalyzeDirectoryForImport()]
